@@ -50,9 +50,10 @@ func leavesString(ls []leaf) string {
 }
 
 type flow struct {
-	c        *Ctx
-	prog     *ssa.Program
-	maxDepth int
+	c         *Ctx
+	prog      *ssa.Program
+	maxDepth  int
+	fieldBusy map[string]bool
 }
 
 func (c *Ctx) flow() *flow {
@@ -253,7 +254,7 @@ func (f *flow) cl(v ssa.Value, depth int, seen map[ssa.Value]bool) []leaf {
 			case *ssa.Global:
 				return []leaf{{Kind: "GLOBAL", Info: x.Pkg.Pkg.Path() + "." + x.Name(), Pos: v.Pos()}}
 			case *ssa.FieldAddr:
-				return []leaf{f.fieldLeaf(x.X.Type(), x.Field, v.Pos())}
+				return f.fieldLeaves(x.X.Type(), x.Field, v.Pos(), depth, seen)
 			case *ssa.Alloc:
 				// local variable cell: union of stores
 				return f.allocStores(x, depth, seen)
@@ -275,7 +276,7 @@ func (f *flow) cl(v ssa.Value, depth int, seen map[ssa.Value]bool) []leaf {
 		}
 		return []leaf{{Kind: "SAFE", Info: "unop"}}
 	case *ssa.Field:
-		return []leaf{f.fieldLeaf(v.X.Type(), v.Field, v.Pos())}
+		return f.fieldLeaves(v.X.Type(), v.Field, v.Pos(), depth, seen)
 	case *ssa.Extract:
 		if call, ok := v.Tuple.(*ssa.Call); ok {
 			return f.callResult(call, v.Index, depth, seen)
@@ -314,6 +315,64 @@ func shortVal(v ssa.Value) string {
 		return "param " + p.Name()
 	}
 	return v.Name()
+}
+
+// fieldLeaves: an unexported field of an unexported struct type of this module is written only by its own package —
+// what it holds is the union of everything the package stores into it (each store classified where it is made);
+// any other field is a FIELD leaf, judged by name.
+func (f *flow) fieldLeaves(t types.Type, idx int, pos token.Pos, depth int, seen map[ssa.Value]bool) []leaf {
+	st0 := t
+	if pt, ok := st0.Underlying().(*types.Pointer); ok {
+		st0 = pt.Elem()
+	}
+	nt, isNamed := st0.(*types.Named)
+	stt, isStruct := st0.Underlying().(*types.Struct)
+	if !isNamed || !isStruct || idx >= stt.NumFields() || nt.Obj().Exported() || stt.Field(idx).Exported() || nt.Obj().Pkg() == nil ||
+		!strings.HasPrefix(nt.Obj().Pkg().Path(), modPath) || nt.TypeArgs().Len() > 0 || depth > f.maxDepth-2 {
+		return []leaf{f.fieldLeaf(t, idx, pos)}
+	}
+	key := nt.Obj().Pkg().Path() + "." + nt.Obj().Name() + "." + stt.Field(idx).Name()
+	if f.fieldBusy == nil {
+		f.fieldBusy = map[string]bool{}
+	}
+	if f.fieldBusy[key] {
+		return nil // a store of the field into itself adds nothing
+	}
+	sp := f.prog.Package(nt.Obj().Pkg())
+	if sp == nil {
+		return []leaf{f.fieldLeaf(t, idx, pos)}
+	}
+	f.fieldBusy[key] = true
+	defer delete(f.fieldBusy, key)
+	var out []leaf
+	n := 0
+	for _, fn := range ssaFuncs(f.prog, sp) {
+		for _, b := range fn.Blocks {
+			for _, ins := range b.Instrs {
+				sto, ok := ins.(*ssa.Store)
+				if !ok {
+					continue
+				}
+				fa, ok := sto.Addr.(*ssa.FieldAddr)
+				if !ok || fa.Field != idx {
+					continue
+				}
+				at := fa.X.Type()
+				if pt, ok := at.Underlying().(*types.Pointer); ok {
+					at = pt.Elem()
+				}
+				if !types.Identical(at, st0) {
+					continue
+				}
+				n++
+				out = append(out, f.cl(sto.Val, depth+2, map[ssa.Value]bool{})...)
+			}
+		}
+	}
+	if n == 0 {
+		return []leaf{{Kind: "CONST", Const: ""}}
+	}
+	return out
 }
 
 func (f *flow) fieldLeaf(t types.Type, idx int, pos token.Pos) leaf {
@@ -527,7 +586,21 @@ func (f *flow) applyFuncValue(fv ssa.Value, app leaf) []leaf {
 		}
 		return out
 	}
-	// a named function: the call itself, to be judged by name (safehtml.SanitizeCSS#0 …)
+	// a named function: the call itself, to be judged by name (safehtml.SanitizeCSS#0 …); one of this module is
+	// summarised as a direct call of it would be — what it returns, with its parameters replaced by the arguments
+	if fn.Blocks != nil && fn.Pkg != nil && strings.HasPrefix(fn.Pkg.Pkg.Path(), modPath) {
+		var out []leaf
+		for _, b := range fn.Blocks {
+			for _, ins := range b.Instrs {
+				if ret, ok := ins.(*ssa.Return); ok && app.Res < len(ret.Results) {
+					for _, rl := range f.classify(ret.Results[app.Res]) {
+						out = append(out, substLeaf(rl, ssaFuncName(fn)+"#", app.Inner)...)
+					}
+				}
+			}
+		}
+		return []leaf{{Kind: "CALL", Info: fmt.Sprintf("%s#%d", name, app.Res), Inner: out, Pos: app.Pos}}
+	}
 	return []leaf{{Kind: "CALL", Info: fmt.Sprintf("%s#%d", name, app.Res), Inner: app.Inner, Pos: app.Pos}}
 }
 
